@@ -461,6 +461,13 @@ func main() {
 			os.Exit(2)
 		}
 		defer byConn.Close()
+		go func() { // keep reading so that the relay's pings are answered (an idle reader is dropped after 60 s)
+			for {
+				if _, _, err := byConn.ReadMessage(); err != nil {
+					return
+				}
+			}
+		}()
 		// exhaustive: every interleaving of the two-actor families
 		r.enumerate("SD", []string{S, D}, &cases)
 		r.enumerate("WD", []string{W, D}, &cases)
